@@ -14,7 +14,7 @@ import (
 func init() {
 	register("C06", &propDef{
 		Title: "Source addresses print to strings that parse back to the same address",
-		Rules: []func(*Checker){ruleC06Ctor, ruleC06Sanitiser, ruleC06URLPath, ruleC06Manifest, ruleC06Print},
+		Rules: []func(*Checker){ruleC06Ctor, ruleC06Sanitiser, ruleC06URLPath, ruleC06SubRaw, ruleC06FinalPattern, ruleC06Host, ruleC06Manifest, ruleC06Print},
 		NotDecided: []string{
 			"the round trip itself: URL escaping, fragments, case folding, registry-address normalisation are facts about string contents",
 			"idempotence of printing for every accepted spelling",
@@ -366,7 +366,10 @@ func ruleC06URLPath(c *Checker) {
 			c.check(bad == "", R, p.FuncName(fn), "RawPath extension keeps separators", p.Pos(rs.Pos()), "the sub-path is appended verbatim or through URL.EscapedPath (which keeps '/')", "the sub-path appended to RawPath goes through "+bad+", a single-segment escaper that rewrites '/' as %2F: a nested sub-path prints as one segment and parses back to a different address")
 		}
 	}
-	c.check(n > 0, R, "-", "URL path edits", "-", fmt.Sprintf("%d site(s)", n), "no URL.Path edit found (sub-paths are no longer printed inside the URL)")
+	if n == 0 {
+		// nothing edits a URL path any more (the sub-path is printed outside of the URL): C06.subraw decides that form
+		c.pass(R, "-", "URL path edits", "-", "no function edits url.URL.Path: the rule has no instance (see C06.subraw)")
+	}
 }
 
 func ruleC06Manifest(c *Checker) {
@@ -995,7 +998,17 @@ func ruleC11Same(c *Checker) {
 			case *ssa.Call:
 				if g := x.Common().StaticCallee(); g != nil && g.Name() == "Versioned" {
 					okv := len(x.Call.Args) == 2 && fromBase(x.Call.Args[1])
-					c.check(okv, R, name, "result version", p.Pos(x.Pos()), "the result's version is the base's version", "the resolved final registry source does not keep the base's selected version")
+					why := ""
+					if okv {
+						// ... and it is that version itself, not something computed from it
+						for _, l := range p.origins(x.Call.Args[1], 0) {
+							if !(l.Kind == "param" || l.Kind == "zero" || (l.Kind == "field" && l.Field != nil && l.Field.Name() == "version")) {
+								okv = false
+								why = " (it is transformed: " + leafDesc(p, l) + ")"
+							}
+						}
+					}
+					c.check(okv, R, name, "result version", p.Pos(x.Pos()), "the result's version is the base's version", "the resolved final registry source does not keep the base's selected version"+why)
 				}
 			}
 		})
